@@ -2,6 +2,7 @@
   C11 — every str handed out by the safe API is valid UTF-8.
 -/
 import Stevia.Proofs.StrState
+import Stevia.Proofs.GenStr
 
 namespace Stevia.C11
 open Stevia
@@ -69,5 +70,45 @@ example : ∃ b' r, PStr.new 1 255 (zerosBA 3) = .ok (b', r) ∧ b'.size = 3 ∧
   · refine ⟨b2, r2, h2, ?_, ?_⟩
     · rw [hs, zerosBA_size]
     · rw [hl, zerosBA_size]; decide
+
+/-! ### Tie through the translator
+
+`Stevia.GenP.*` / `Stevia.GenS.*` are regenerated from `prefix_str.rs` / `pod_str.rs` on every run. -/
+
+/-- The translated constructors and loaders are the model's: `from_bytes` and `new` answer `Ok` exactly when the model
+    does, panic (`none`) exactly where it faults, and the string `new` hands out is the payload of the buffer it
+    leaves; `PodStr::as_str` is the model's `asStr`. -/
+theorem translated_source_is_the_model (W P N : Nat) (hP : P < 256 ^ W) (bytes : ByteArray) :
+    GenP.from_bytes W P N bytes = (PStr.fromBytes W bytes).toOption ∧
+    (GenP.new W P N bytes).map (fun r => (r.1, r.2.isSome)) = (PStr.new W P bytes).toOption ∧
+    (∀ d' v, GenP.new W P N bytes = some (d', some v) → v = PStr.payload W d') ∧
+    (bytes.size = N → GenS.as_str W P N bytes = some (PodStr.asStr bytes)) :=
+  ⟨GenP.from_bytes_eq W P N bytes, GenP.new_eq W P N hP bytes, fun d' v h => GenP.new_value W P N hP bytes d' v h,
+   fun hv => GenS.as_str_eq W P N bytes hv⟩
+
+/-- Whatever the translated `new` hands out as `Ok` is valid UTF-8. -/
+theorem translated_new_valid (W P N : Nat) (hP : P < 256 ^ W) (data d' v : ByteArray)
+    (h : GenP.new W P N data = some (d', some v)) : v.IsValidUTF8 := by
+  have hv := GenP.new_value W P N hP data d' v h
+  have he := GenP.new_eq W P N hP data
+  rw [h] at he
+  cases hn : PStr.new W P data with
+  | error e => rw [hn] at he; cases he
+  | ok pr =>
+    obtain ⟨b', r⟩ := pr
+    rw [hn] at he
+    simp only [Option.map_some, Option.isSome_some, Except.toOption, Option.some.injEq, Prod.mk.injEq] at he
+    obtain ⟨h1, h2⟩ := he
+    subst h1
+    rw [hv]
+    exact (new_ok_iff_valid W P hP data d' r hn).1 h2.symm
+
+/-- `copy_from_str` through the translated code: the payload afterwards, put back between prefix and trailing
+    bytes, is the model's buffer (whose payload is valid UTF-8 by `prefix_str_valid`). -/
+theorem translated_copy_is_the_model (W P N : Nat) (buf : ByteArray) (s : String)
+    (hw : W + PStr.recLen W buf ≤ buf.size) :
+    ∃ v, GenP.copy_from_str W P N (PStr.payload W buf) s = some v ∧
+      PStr.copyFromStr W buf s = buf.extract 0 W ++ v ++ buf.extract (W + PStr.recLen W buf) buf.size :=
+  GenP.copy_from_str_eq W P N buf s hw
 
 end Stevia.C11
